@@ -445,3 +445,159 @@ Theorem program_no_goto_to_next_label :
 Proof. exact NoGotoNext.program_no_goto_to_next_label. Qed.
 Print Assumptions program_no_goto_to_next_label.
 
+
+(* NoGotoNextSize.v *)
+From Pory Require NoGotoNextSize.
+Theorem graph_size_holds :
+  forall (body : list stmt) (w : wst), emit_graph body = Emitter.Ok w -> (Z.of_nat (length (finals w)) <= 10 ^ 40)%Z.
+Proof. exact NoGotoNextSize.graph_size_holds. Qed.
+Print Assumptions graph_size_holds.
+
+Theorem no_goto_to_next_label_unoptimized_nosize :
+  forall (mp : option text) (tl : list text) (name : text) (glob : bool) (body : list stmt) (w : wst) (code : list instr),
+  emit_graph body = Emitter.Ok w ->
+  src_ok body ->
+  scoped None None body ->
+  emit_script mp tl name glob false body = Emitter.Ok code ->
+  forall (pre : list instr) (l : text) (mid : list instr) (g : bool) (post : list instr),
+  code = pre ++ IGoto l :: mid ++ ILabel l g :: post -> Forall skip mid -> False.
+Proof. exact NoGotoNextSize.no_goto_to_next_label_unoptimized_nosize. Qed.
+Print Assumptions no_goto_to_next_label_unoptimized_nosize.
+
+Theorem no_goto_to_next_label_nosize :
+  forall (mp : option text) (tl : list text) (name : text) (glob : bool) (body : list stmt) (w : wst) (opt : bool) (code : list instr),
+  emit_graph body = Emitter.Ok w ->
+  src_ok body ->
+  scoped None None body ->
+  emit_script mp tl name glob opt body = Emitter.Ok code ->
+  forall (pre : list instr) (l : text) (mid : list instr) (g : bool) (post : list instr),
+  code = pre ++ IGoto l :: mid ++ ILabel l g :: post -> Forall skip mid -> False.
+Proof. exact NoGotoNextSize.no_goto_to_next_label_nosize. Qed.
+Print Assumptions no_goto_to_next_label_nosize.
+
+Theorem script_goto_target_defined_nosize :
+  forall (mp : option text) (tl : list text) (name : text) (glob : bool) (body : list stmt) (w : wst) (opt : bool) (code : list instr),
+  emit_graph body = Emitter.Ok w ->
+  src_ok body ->
+  emit_script mp tl name glob opt body = Emitter.Ok code ->
+  forall (a : list instr) (l : text) (b : list instr), code = a ++ IGoto l :: b -> In l (lnames code).
+Proof. exact NoGotoNextSize.script_goto_target_defined_nosize. Qed.
+Print Assumptions script_goto_target_defined_nosize.
+
+Theorem no_goto_to_next_label_from_source_nosize :
+  forall (hl hd hs : N -> bool) (autovars : list (text * autovar)) (switches : list (text * text)) (ee : bool) (fc : fontcfg) 
+    (cli_font : text) (cli_maxlen : Z) (src : text) (p : program),
+  parse_program autovars switches ee (parse_format fc cli_font cli_maxlen ee) (lex hl hd hs src) = Ok p ->
+  forall (body : list stmt) (mp : option text) (tl : list text) (name : text) (glob : bool) (w : wst) (opt : bool) (code : list instr),
+  In body (bodies_of (tops p)) ->
+  emit_graph body = Emitter.Ok w ->
+  emit_script mp tl name glob opt body = Emitter.Ok code ->
+  forall (pre : list instr) (l : text) (mid : list instr) (g : bool) (post : list instr),
+  code = pre ++ IGoto l :: mid ++ ILabel l g :: post -> Forall skip mid -> False.
+Proof. exact NoGotoNextSize.no_goto_to_next_label_from_source_nosize. Qed.
+Print Assumptions no_goto_to_next_label_from_source_nosize.
+
+Theorem program_segments_ok_nosize :
+  forall (hl hd hs : N -> bool) (autovars : list (text * autovar)) (switches : list (text * text)) (ee : bool) (fc : fontcfg) 
+    (cli_font : text) (cli_maxlen : Z) (src : text) (p : program),
+  parse_program autovars switches ee (parse_format fc cli_font cli_maxlen ee) (lex hl hd hs src) = Ok p ->
+  forall (opt : bool) (mp : option text) (code : list instr),
+  emit_program_instrs opt mp p = Emitter.Ok code ->
+  exists segs : list (list instr), Forall2 (segment_ok mp (map xname (texts p)) opt) (program_pieces mp p) segs /\ code = concat segs.
+Proof. exact NoGotoNextSize.program_segments_ok_nosize. Qed.
+Print Assumptions program_segments_ok_nosize.
+
+Theorem program_no_goto_to_next_label_nosize :
+  forall (hl hd hs : N -> bool) (autovars : list (text * autovar)) (switches : list (text * text)) (ee : bool) (fc : fontcfg) 
+    (cli_font : text) (cli_maxlen : Z) (src : text) (p : program),
+  parse_program autovars switches ee (parse_format fc cli_font cli_maxlen ee) (lex hl hd hs src) = Ok p ->
+  forall (opt : bool) (mp : option text) (code : list instr),
+  emit_program_instrs opt mp p = Emitter.Ok code ->
+  NoDup (lnames code) ->
+  forall (pre : list instr) (l : text) (mid : list instr) (g : bool) (post : list instr),
+  code = pre ++ IGoto l :: mid ++ ILabel l g :: post -> Forall skip mid -> False.
+Proof. exact NoGotoNextSize.program_no_goto_to_next_label_nosize. Qed.
+Print Assumptions program_no_goto_to_next_label_nosize.
+
+Theorem optimized_gotos_go_backward_nosize :
+  forall (mp : option text) (tl : list text) (name : text) (glob : bool) (body : list stmt) (w : wst) (code : list instr),
+  emit_graph body = Emitter.Ok w ->
+  src_ok body ->
+  emit_script mp tl name glob true body = Emitter.Ok code ->
+  forall (pre : list instr) (l : text) (post : list instr), code = pre ++ IGoto l :: post -> ~ In l (lnames post).
+Proof. exact NoGotoNextSize.optimized_gotos_go_backward_nosize. Qed.
+Print Assumptions optimized_gotos_go_backward_nosize.
+
+Theorem no_goto_to_a_later_label_optimized_nosize :
+  forall (mp : option text) (tl : list text) (name : text) (glob : bool) (body : list stmt) (w : wst) (code : list instr),
+  emit_graph body = Emitter.Ok w ->
+  src_ok body ->
+  emit_script mp tl name glob true body = Emitter.Ok code ->
+  forall (pre : list instr) (l : text) (mid : list instr) (g : bool) (post : list instr),
+  code = pre ++ IGoto l :: mid ++ ILabel l g :: post -> False.
+Proof. exact NoGotoNextSize.no_goto_to_a_later_label_optimized_nosize. Qed.
+Print Assumptions no_goto_to_a_later_label_optimized_nosize.
+
+Theorem goto_to_next_label_partial_nosize :
+  forall (mp : option text) (tl : list text) (name : text) (glob : bool) (body : list stmt) (w : wst) (opt : bool) (code : list instr),
+  emit_graph body = Emitter.Ok w ->
+  src_ok body ->
+  emit_script mp tl name glob opt body = Emitter.Ok code ->
+  forall (pre : list instr) (l : text) (mid : list instr) (g : bool) (post : list instr),
+  code = pre ++ IGoto l :: mid ++ ILabel l g :: post ->
+  Forall skip mid ->
+  exists (l1 : list Z) (A B : Z) (l2 : list Z) (cA cB : chunk),
+    order_of opt (finals w) = l1 ++ A :: B :: l2 /\
+    get_chunk (finals w) A = Some cA /\
+    get_chunk (finals w) B = Some cB /\
+    l = lbl name (tail_of cA) /\ tail_of cA <> B /\ B <> 0%Z /\ cstmts cB = [] /\ ~ In (lbl name B) (targets_of code).
+Proof. exact NoGotoNextSize.goto_to_next_label_partial_nosize. Qed.
+Print Assumptions goto_to_next_label_partial_nosize.
+
+Theorem no_goto_to_next_label_checked_nosize :
+  forall (mp : option text) (tl : list text) (name : text) (glob : bool) (body : list stmt) (w : wst) (opt : bool) (code : list instr),
+  emit_graph body = Emitter.Ok w ->
+  src_ok body ->
+  emit_script mp tl name glob opt body = Emitter.Ok code ->
+  no_dead_empty_chunk name (finals w) code = true ->
+  forall (pre : list instr) (l : text) (mid : list instr) (g : bool) (post : list instr),
+  code = pre ++ IGoto l :: mid ++ ILabel l g :: post -> Forall skip mid -> False.
+Proof. exact NoGotoNextSize.no_goto_to_next_label_checked_nosize. Qed.
+Print Assumptions no_goto_to_next_label_checked_nosize.
+
+Theorem optimized_gotos_go_backward_from_source_nosize :
+  forall (hl hd hs : N -> bool) (autovars : list (text * autovar)) (switches : list (text * text)) (ee : bool) (fc : fontcfg) 
+    (cli_font : text) (cli_maxlen : Z) (src : text) (p : program),
+  parse_program autovars switches ee (parse_format fc cli_font cli_maxlen ee) (lex hl hd hs src) = Ok p ->
+  forall (body : list stmt) (mp : option text) (tl : list text) (name : text) (glob : bool) (w : wst) (code : list instr),
+  In body (bodies_of (tops p)) ->
+  emit_graph body = Emitter.Ok w ->
+  emit_script mp tl name glob true body = Emitter.Ok code ->
+  forall (pre : list instr) (l : text) (post : list instr), code = pre ++ IGoto l :: post -> ~ In l (lnames post).
+Proof. exact NoGotoNextSize.optimized_gotos_go_backward_from_source_nosize. Qed.
+Print Assumptions optimized_gotos_go_backward_from_source_nosize.
+
+Theorem no_goto_to_next_label_closed :
+  forall (mp : option text) (tl : list text) (name : text) (glob : bool) (body : list stmt) (opt : bool) (code : list instr),
+  src_ok body -> scoped None None body -> emit_script mp tl name glob opt body = Emitter.Ok code -> no_goto_to_next code.
+Proof. exact NoGotoNextSize.no_goto_to_next_label_closed. Qed.
+Print Assumptions no_goto_to_next_label_closed.
+
+Theorem optimized_gotos_go_backward_closed :
+  forall (mp : option text) (tl : list text) (name : text) (glob : bool) (body : list stmt) (code : list instr),
+  src_ok body ->
+  emit_script mp tl name glob true body = Emitter.Ok code ->
+  forall (pre : list instr) (l : text) (post : list instr), code = pre ++ IGoto l :: post -> ~ In l (lnames post).
+Proof. exact NoGotoNextSize.optimized_gotos_go_backward_closed. Qed.
+Print Assumptions optimized_gotos_go_backward_closed.
+
+Theorem no_goto_to_next_label_from_source_closed :
+  forall (hl hd hs : N -> bool) (autovars : list (text * autovar)) (switches : list (text * text)) (ee : bool) (fc : fontcfg) 
+    (cli_font : text) (cli_maxlen : Z) (src : text) (p : program),
+  parse_program autovars switches ee (parse_format fc cli_font cli_maxlen ee) (lex hl hd hs src) = Ok p ->
+  forall (body : list stmt) (mp : option text) (tl : list text) (name : text) (glob opt : bool) (code : list instr),
+  In body (bodies_of (tops p)) ->
+  emit_script mp tl name glob opt body = Emitter.Ok code -> no_goto_to_next code /\ label_lines_accounted name glob body code.
+Proof. exact NoGotoNextSize.no_goto_to_next_label_from_source_closed. Qed.
+Print Assumptions no_goto_to_next_label_from_source_closed.
+
